@@ -97,8 +97,10 @@ func ValidateAttestation(ctx context.Context, subnet uint64, att *phase0.Attesta
 		} else if !inSubtree {
 			return nil, GossipValidatorResult{IGNORE, errors.New("block not in subtree of finalized root")}
 		}
-	} else if fin.Epoch > att.Data.Target.Epoch {
-		return nil, GossipValidatorResult{REJECT, errors.New("cannot vote for finalized root as target")}
+	} else if spec.SlotToEpoch(blockRef.Step().Slot()) > att.Data.Target.Epoch {
+		// The finalized block may be older than the start of the finalized epoch (empty slots):
+		// compare the target with the epoch of the block itself, not with the finalized epoch.
+		return nil, GossipValidatorResult{REJECT, errors.New("cannot vote for finalized root with an older target")}
 	}
 
 	// TODO: additional validation of data.source?
